@@ -70,19 +70,25 @@ ser_receiver = Fn(F, ["serialize_os_ipc_receiver"], ret="r", extra_params=TLS,
     rules=[T_SER_CH, R_SER_USIZE], safety_props=["C18"])
 
 de_sender = Fn(F, ["deserialize_os_ipc_sender"], ret="r", extra_params=TLS,
+    requires=[Clause("ipc.deserialize_os_ipc_sender/requires.attachments_in_the_table_are_unclaimed", "unclaimed(*old(tls))")],
     ensures=[
+        Clause("ipc.deserialize_os_ipc_sender/ensures.table_stays_unclaimed", "unclaimed(*final(tls))", ["C16"]),
         Clause("ipc.deserialize_os_ipc_sender/ensures.endpoint_is_this_messages_attachment",
-               "r matches Ok(s) ==> exists|i: int| 0 <= i < old(tls).de_channels@.len() && s.fd.0 == (#[trigger] old(tls).de_channels@[i]).fd\n"
-               "    && final(tls).de_channels@ == old(tls).de_channels@.update(i, OsOpaqueIpcChannel { fd: -1i32 })", ["C16", "C04"]),
+               "r matches Ok(s) ==> exists|i: int| 0 <= i < old(tls).de_channels@.len() && (#[trigger] old(tls).de_channels@[i]) is Some\n"
+               "    && s.fd.0 == old(tls).de_channels@[i]->0.fd && final(tls).de_channels@ == old(tls).de_channels@.update(i, None)", ["C16", "C04"]),
+        Clause("ipc.deserialize_os_ipc_sender/ensures.error_leaves_the_table_alone", "r is Err ==> final(tls).de_channels@ == old(tls).de_channels@", ["C16"]),
         Clause("ipc.deserialize_os_ipc_sender/ensures.step", "de_step(*old(tls), *final(tls))", ["C14", "C16"]),
     ],
     rules=[T_DE_CH, R_DE_USIZE, R_DE_CUSTOM], safety_props=["C16", "C18"])
 
 de_receiver = Fn(F, ["deserialize_os_ipc_receiver"], ret="r", extra_params=TLS,
+    requires=[Clause("ipc.deserialize_os_ipc_receiver/requires.attachments_in_the_table_are_unclaimed", "unclaimed(*old(tls))")],
     ensures=[
+        Clause("ipc.deserialize_os_ipc_receiver/ensures.table_stays_unclaimed", "unclaimed(*final(tls))", ["C16"]),
         Clause("ipc.deserialize_os_ipc_receiver/ensures.endpoint_is_this_messages_attachment",
-               "r matches Ok(s) ==> exists|i: int| 0 <= i < old(tls).de_channels@.len() && cell_val(&s.fd) == (#[trigger] old(tls).de_channels@[i]).fd\n"
-               "    && final(tls).de_channels@ == old(tls).de_channels@.update(i, OsOpaqueIpcChannel { fd: -1i32 })", ["C16", "C04"]),
+               "r matches Ok(s) ==> exists|i: int| 0 <= i < old(tls).de_channels@.len() && (#[trigger] old(tls).de_channels@[i]) is Some\n"
+               "    && cell_val(&s.fd) == old(tls).de_channels@[i]->0.fd && final(tls).de_channels@ == old(tls).de_channels@.update(i, None)", ["C16", "C04"]),
+        Clause("ipc.deserialize_os_ipc_receiver/ensures.error_leaves_the_table_alone", "r is Err ==> final(tls).de_channels@ == old(tls).de_channels@", ["C16"]),
         Clause("ipc.deserialize_os_ipc_receiver/ensures.step", "de_step(*old(tls), *final(tls))", ["C14", "C16"]),
     ],
     rules=[T_DE_CH, R_DE_USIZE, R_DE_CUSTOM], safety_props=["C16", "C18"])
